@@ -10,6 +10,7 @@ import (
 	"sync"
 	"sync/atomic"
 	"testing"
+	"time"
 
 	"github.com/platinummonkey/go-concurrency-limits/core"
 )
@@ -146,6 +147,7 @@ func TestPartitionStress(t *testing.T) {
 		cfg := partCfg{Kind: []string{"lookup", "predicate"}[k%2], Den: 16, Limit: r.between(1, 4), Objs: map[string]partObjCfg{
 			"p0": {Name: "a", Num: r.intn(9), Match: []string{"a"}, Built: 1},
 			"p1": {Name: "b", Num: r.intn(8), Match: []string{"b", "a"}, Built: 1},
+			"p2": {Name: "z", Num: r.intn(4), Match: []string{"z", "a"}, Built: 1},
 		}, Init: []string{"p0", "p1"}, Variant: map[string]string{"unknown": "contract", "add": "contract"}}
 		s, err := newPartSUT(cfg)
 		if err != nil {
@@ -154,15 +156,38 @@ func TestPartitionStress(t *testing.T) {
 		var mu sync.Mutex
 		var events []J
 		var seq, ids int64
-		begin := func(op J) (int64, func(ok bool)) {
+		beginRes := func(op J) (int64, func(ok bool, res J)) {
 			id := atomic.AddInt64(&ids, 1)
 			mu.Lock()
-			events = append(events, J{"t": "b", "id": id, "op": op, "seq": atomic.AddInt64(&seq, 1), "ok": true})
+			events = append(events, J{"t": "b", "id": id, "op": op, "seq": atomic.AddInt64(&seq, 1), "ok": true, "res": J{"ok": true}})
 			mu.Unlock()
-			return id, func(ok bool) {
+			return id, func(ok bool, res J) {
 				mu.Lock()
-				events = append(events, J{"t": "e", "id": id, "op": J{"op": ""}, "ok": ok, "seq": atomic.AddInt64(&seq, 1)})
+				events = append(events, J{"t": "e", "id": id, "op": J{"op": ""}, "ok": ok, "res": res, "seq": atomic.AddInt64(&seq, 1)})
 				mu.Unlock()
+			}
+		}
+		begin := func(op J) (int64, func(ok bool)) {
+			id, end := beginRes(op)
+			return id, func(ok bool) { end(ok, J{"ok": ok}) }
+		}
+		// removing and adding partitions while tokens are out and other goroutines acquire
+		remove := func(key string) {
+			_, end := beginRes(J{"op": "rem", "key": key})
+			if s.lookup != nil {
+				busy, ok := s.lookup.RemovePartition(key)
+				end(ok, J{"ok": ok, "busy": busy})
+				return
+			}
+			ok, removed, counts, _ := s.removeMatching(key)
+			end(ok, J{"ok": ok, "removed": removed, "counts": counts})
+		}
+		add := func(obj string) {
+			_, end := begin(J{"op": "add", "obj": obj})
+			if s.lookup != nil {
+				end(s.lookup.AddPartition(cfg.Objs[obj].Name, s.lobj[obj]))
+			} else {
+				end(s.pred.AddPartition(s.pobj[obj]))
 			}
 		}
 		g := r.between(2, 4)
@@ -190,6 +215,12 @@ func TestPartitionStress(t *testing.T) {
 						_, end := begin(J{"op": "rel", "of": h.id})
 						h.tok.Release()
 						end(true)
+					case x == 8 && gr.chance(1, 2):
+						if gr.chance(1, 2) {
+							remove(gr.pick(keys))
+						} else {
+							add(gr.pick([]string{"p0", "p1", "p2"}))
+						}
 					case x == 9:
 						v := gr.between(0, 5)
 						_, end := begin(J{"op": "set", "v": v})
@@ -213,7 +244,7 @@ func TestPartitionStress(t *testing.T) {
 			}()
 		}
 		wg.Wait()
-		w.write(J{"t": "reset", "trace": k, "cfg": cfg, "id": 0, "op": J{"op": ""}, "ok": true})
+		w.write(J{"t": "reset", "trace": k, "cfg": cfg, "id": 0, "op": J{"op": ""}, "ok": true, "res": J{"ok": true}})
 		for _, e := range events {
 			e["trace"] = k
 			w.write(e)
@@ -223,6 +254,85 @@ func TestPartitionStress(t *testing.T) {
 		for _, id := range s.ids {
 			ob[id] = s.objBusy(id)
 		}
-		w.write(J{"t": "final", "trace": k, "id": 0, "op": J{"op": ""}, "ok": true, "obs": J{"limit": limit, "busy": busy, "ob": ob}})
+		w.write(J{"t": "final", "trace": k, "id": 0, "op": J{"op": ""}, "ok": true, "res": J{"ok": true}, "obs": J{"limit": limit, "busy": busy, "ob": ob}})
+	}
+	partitionRemoveRace(t, w, n)
+}
+
+// partitionRemoveRace appends deterministic real-time histories: a TryAcquire is parked inside the predicate of the
+// partition it matches while a removal of that partition is started (bounded wait: on this tree the acquirer holds the
+// strategy's mutex while predicates run, so the removal waits), then the acquirer is let go. Whatever the order the two
+// take effect in, what the removal saw (the in-flight count of each partition it removed) and what the acquirer got
+// must be explained by one of the two serial orders (PartitionLin).
+func partitionRemoveRace(t *testing.T, w *ndWriter, first int) {
+	k := first
+	for rep := 0; rep < 6; rep++ {
+		cfg := partCfg{Kind: "predicate", Den: 16, Limit: 1 + rep%3, Objs: map[string]partObjCfg{
+			"p0": {Name: "a", Num: 8, Match: []string{"a", "q"}, Built: 1},
+			"p1": {Name: "b", Num: 4, Match: []string{"b", "a"}, Built: 1},
+		}, Init: []string{"p0", "p1"}, Variant: map[string]string{"unknown": "contract", "add": "contract"}}
+		s, err := newPartSUT(cfg)
+		if err != nil {
+			t.Fatal(err)
+		}
+		var mu sync.Mutex
+		var events []J
+		var seq, ids int64
+		beginRes := func(op J) func(ok bool, res J) {
+			id := atomic.AddInt64(&ids, 1)
+			mu.Lock()
+			events = append(events, J{"t": "b", "id": id, "op": op, "seq": atomic.AddInt64(&seq, 1), "ok": true, "res": J{"ok": true}})
+			mu.Unlock()
+			return func(ok bool, res J) {
+				mu.Lock()
+				events = append(events, J{"t": "e", "id": id, "op": J{"op": ""}, "ok": ok, "res": res, "seq": atomic.AddInt64(&seq, 1)})
+				mu.Unlock()
+			}
+		}
+		try := func(key string) {
+			end := beginRes(J{"op": "try", "key": key})
+			_, ok := s.pred.TryAcquire(keyCtx("predicate", key))
+			end(ok, J{"ok": ok})
+		}
+		if rep%2 == 1 {
+			try("a") // a token of p0 is already out
+		}
+		parked, resume := make(chan struct{}), make(chan struct{})
+		var once sync.Once
+		s.parkObj = "p0"
+		s.parkTry = func() { once.Do(func() { close(parked); <-resume }) }
+		doneA, doneB := make(chan struct{}), make(chan struct{})
+		go func() { try("a"); close(doneA) }()
+		select {
+		case <-parked:
+		case <-time.After(2 * time.Second):
+			t.Fatal("the acquirer never reached the predicate of p0")
+		}
+		go func() {
+			end := beginRes(J{"op": "rem", "key": []string{"a", "q"}[rep%2]})
+			ok, removed, counts, _ := s.removeMatching([]string{"a", "q"}[rep%2])
+			end(ok, J{"ok": ok, "removed": removed, "counts": counts})
+			close(doneB)
+		}()
+		select {
+		case <-doneB:
+		case <-time.After(5 * time.Millisecond):
+		}
+		close(resume)
+		<-doneA
+		<-doneB
+		s.parkTry = nil
+		w.write(J{"t": "reset", "trace": k, "cfg": cfg, "id": 0, "op": J{"op": ""}, "ok": true, "res": J{"ok": true}})
+		for _, e := range events {
+			e["trace"] = k
+			w.write(e)
+		}
+		limit, busy := s.totals()
+		ob := J{}
+		for _, id := range s.ids {
+			ob[id] = s.objBusy(id)
+		}
+		w.write(J{"t": "final", "trace": k, "id": 0, "op": J{"op": ""}, "ok": true, "res": J{"ok": true}, "obs": J{"limit": limit, "busy": busy, "ob": ob}})
+		k++
 	}
 }
